@@ -364,3 +364,37 @@ def filtered_copies(body):
         kv = [U(e) for e in g.target.elts]
         out.append((c, U(c.func.value), g.iter, set((U(e), p) for e, p in atoms) | set(guard_texts(c)), key, val, kv[0], kv[1]))
     return out
+
+
+def expand_pure_helpers(mod, atoms):
+    """Guard atoms with calls of one-line module-level helpers (def f(a, b): return <expr>) replaced by the expression they return."""
+    from .normal import _Subst
+    out = set()
+    for t, p in atoms:
+        try:
+            e = ast.parse(t, mode="eval")
+        except SyntaxError:
+            out.add((t, p))
+            continue
+        changed = False
+        for _ in range(3):
+            hit = None
+            for n in ast.walk(e):
+                if isinstance(n, ast.Call) and isinstance(n.func, ast.Name) and not n.keywords and mod.has(n.func.id):
+                    f = mod.get(n.func.id)
+                    if not isinstance(f, FUNC_TYPES):
+                        continue
+                    body = [s for s in f.body if not (isinstance(s, ast.Expr) and isinstance(s.value, ast.Constant))]
+                    ps = [a.arg for a in f.args.args]
+                    if len(body) == 1 and isinstance(body[0], ast.Return) and body[0].value is not None and len(ps) == len(n.args) and not f.args.vararg and not f.args.kwarg:
+                        hit = (n, f, ps, body[0].value)
+                        break
+            if hit is None:
+                break
+            n, f, ps, val = hit
+            new = _Subst(dict(zip(ps, n.args))).visit(ast.parse(ast.unparse(val), mode="eval")).body
+            src = ast.unparse(e).replace(ast.unparse(n), ast.unparse(new), 1)
+            e = ast.parse(src, mode="eval")
+            changed = True
+        out.add((ast.unparse(e.body) if changed else t, p))
+    return out
